@@ -15,7 +15,7 @@ func init() {
 	register(&Check{
 		Meta: report.Meta{
 			Property: "C17",
-			Rule: "every command <<name w1 .. wk>>, k<=3 (quick: full word alphabet for k<=2, reduced for k=3), names from {foo, iffy, settings, jumpy, callous, declared, localhost, enumerate, caseload, stopper, elsewhere, elseifx, endiffy, é, x1, stop}, " +
+			Rule: "every command <<name w1 .. wk>>, k<=3 (quick: full word alphabet for k<=2, reduced for k=3), names from {foo, iffy, settings, jumpy, callous, declared, localhost, enumerate, caseload, stopper, elsewhere, elseifx, endiffy, é, x1, stop, wait (a host handler registered under the name of the stock command)}, " +
 				"words from {abc, é, true, false, 1, 007, -2, 3.5, -0.5, +3, inf, nan, Infinity, 0x10, True, 1., .5, -, 1.2.3, {1+1}, {\"s t\"}, {true}, {$v}, 2147483648, 9223372036854775807, 9223372036854775808, 18446744073709551615, -10000000000000000000, a 30-digit integer, 0.30000000000000004, 1.14, -0, 0.0, 00}, separators from {one space, three spaces, tab, leading / trailing space}; " +
 				"handlers registered with raw AddCommand record their typed arguments; each name also unregistered, and a handler registered under \"stop\"; sequences of 2-3 commands (registered and unregistered ones) in one dialogue; loop: every command of 1-2 arguments from 8 (compound) inline expressions over variables, executed three times in a jump loop while the variables change; oracle: exactly one invocation of the handler of name with the typed list the property prescribes; " +
 				"a case is one command statement in one host configuration; non-trivial = at least one argument or a keyword-prefixed name",
@@ -28,7 +28,8 @@ func init() {
 }
 
 func runC17(ctx *report.Ctx) {
-	names := []string{"foo", "iffy", "settings", "jumpy", "callous", "declared", "localhost", "enumerate", "caseload", "stopper", "elsewhere", "elseifx", "endiffy", "é", "x1", "stop"}
+	names := []string{"foo", "iffy", "settings", "jumpy", "callous", "declared", "localhost", "enumerate", "caseload", "stopper", "elsewhere", "elseifx", "endiffy", "é", "x1", "stop",
+		"wait"} // the name of the stock command: a handler the host registers under it is the handler of that name
 	type word struct {
 		w string
 		e *yc.Expr
@@ -124,6 +125,9 @@ func runC17(ctx *report.Ctx) {
 		}
 		layout := c.Choose(len(seps)+2, "spacing")
 		registered := c.Choose(2, "registered") == 0
+		if name == "wait" && !registered {
+			return // without a host handler <<wait n>> is the stock command (C10's subject): it would really sleep
+		}
 		if !c.Mine() {
 			return
 		}
